@@ -31,12 +31,13 @@ theorem others_never_dispatch (r : R) (uid : Nat) (fr : Frame.Frame) (wc : Bool)
   ⟨unknownStream_cnt _ (by decide) _ _ _, headersPrelude_cnt _ (by decide) _ _, handleFrame_cnt _ (by decide) _ _ _,
    onFrameError_cnt _ (by decide) _ _ _, flushStreams_cnt _ (by decide) _⟩
 
-/-- a handler's completion is answered with exactly one HEADERS frame (when the stream is still there) -/
+/-- a handler's completion is answered with exactly one HEADERS frame (when the stream is still there); what does not fit
+into it follows in CONTINUATION frames (`writeHeaderBlock`) -/
 theorem finishRequest_headers (r : R) (uid : Nat) (resp : Resp) (st : Strm) (h : r.getStrm uid = some st) :
     cnt .headers (finishRequest r uid resp).1.out = cnt .headers r.out + 1 := by
   simp only [finishRequest, h]
   repeat' split
   all_goals simp [sendData_cnt .headers (by decide), responseHeaders, Out.kind]
-  all_goals (split <;> simp [Out.kind])
+  all_goals (split <;> simp [cnt_blockOuts])
 
 end H2.Server
